@@ -49,15 +49,11 @@ Definition pack (t : dtype) (vs : list val) : res column :=
   | TOther => Err EType
   end.
 
-(* rows of a table given as a list of equally long columns *)
-Fixpoint transpose (n : nat) (cols : list (list val)) : list (list val) :=
-  match n with
-  | O => []
-  | S k => map (fun c => hd VNone c) cols :: transpose k (map (@tl val) cols)
-  end.
+(* rows of a table given as a list of equally long columns: row i takes element i of each *)
+Definition row_at (cols : list (list val)) (i : nat) : list val := map (fun c => nth i c VNone) cols.
 
 Definition rows_of (n : nat) (args : list column) : list (list val) :=
-  transpose n (map col_vals args).
+  map (row_at (map col_vals args)) (seq 0 n).
 
 (* numpy.vectorize(func) applied to the argument columns, n rows *)
 Definition vectorize (f : list val -> res val) (n : nat) (args : list column) : res column :=
